@@ -33,8 +33,20 @@ def run(ctx):
 
     # ---------------------------------------------------------------- C06.2 / C06.3
     handlers = []
+    # a "subscribe, snapshot, chain" preparation extracted into a private helper of server.rs is spliced into the
+    # handler that calls it, so the order of effects is read where it happens
+    from ..inline import inline_calls, contains
+    w = contains(rx_calls=r'::subscribe$|::events_snapshot$|ContinuityStore::replay_events$|StreamExt::chain$')
+    inl = {}
+    absorbed = set()
     for p, f in sorted(P.fns.items()):
         if not p.startswith('ripd::server::'):
+            continue
+        g = inline_calls(P, f, lambda body, callee: callee.startswith('ripd::server::') and w(body, callee), depth=2, note=ctx.note)
+        inl[p] = g
+        absorbed |= set(getattr(g, 'inlined_bodies', ()))
+    for p, f in sorted(inl.items()):
+        if p in absorbed:
             continue
         subs = f.calls(r'::subscribe$')
         snaps = f.calls(r'::events_snapshot$|ContinuityStore::replay_events$')
@@ -60,6 +72,8 @@ def run(ctx):
         # seq filter somewhere in the handler's closures
         base = f.path.split('::{closure')[0]
         fam = [g for g in P.family(base)]
+        for hb in sorted(getattr(f, 'inlined_bodies', ())):
+            fam += [g for g in P.family(hb.split('::{closure')[0]) if g not in fam]
         seqcmp = []
         idcmp = []
         for g in fam:
